@@ -715,6 +715,31 @@ func genC13CLI(t *rapid.T) CLICrashCase {
 		// an output file that can or cannot be written
 		flags = append(flags, "-o="+gen.Pick(t, "outPath", []string{"out.txt", "no/such/dir/out.txt", ".", "f1/out.txt", ""}))
 	}
+	if gen.Chance(t, "emptyResult", 8) {
+		if gen.Chance(t, "emptyResultToFile", 50) {
+			flags = append(flags, "-o=result.txt")
+		}
+		// a well-formed patch that leaves no document, or the empty patch on
+		// the empty document
+		doc := gen.Pick(t, "wholeDoc", []string{`{"a":1}`, `[1,2]`, `"s"`, `1`, `null`})
+		kind := gen.Int(t, "emptyKind", 0, 3)
+		var f1, f2 string
+		switch kind {
+		case 0:
+			f1, f2 = "@ []\n- "+doc+"\n", doc
+		case 1:
+			flags = append(flags, "-f=patch")
+			f1, f2 = `[{"op":"test","path":"","value":`+doc+`},{"op":"remove","path":"","value":`+doc+`}]`, doc
+		case 2:
+			flags = append(flags, "-f=merge")
+			f1, f2 = "null", doc
+		default:
+			f1, f2 = "", ""
+		}
+		c.F1, c.F2 = f1, &f2
+		c.Args = append(append(flags, "-p"), "f1", "f2")
+		return c
+	}
 	switch mode {
 	case "diff":
 		if gen.Chance(t, "format", 40) {
